@@ -253,6 +253,8 @@ struct Runner {
     work: PathBuf,
     fx: Option<Fx>,
     seq: usize,
+    /// endpoint instances started by this process
+    servers: usize,
 }
 
 impl Runner {
@@ -295,6 +297,7 @@ impl Runner {
         let store = Arc::new(PairingStore::with_clock(path.clone(), clock_fn(&clock)));
         if endpoint {
             self.endpoint().swap_pairing(store.clone());
+            self.servers += 1;
         }
         let mut s = Sess { clock, path, store, endpoint, codes: vec![], toks, rng, req_id: 1000 };
         let steps = sc["steps"].as_array().cloned().unwrap_or_default();
@@ -506,6 +509,7 @@ impl Runner {
                 s.store = store.clone();
                 if s.endpoint {
                     self.endpoint().swap_pairing(store);
+                    self.servers += 1;
                 }
             }
             "Req" => {
@@ -577,17 +581,74 @@ impl Runner {
     }
 }
 
+/// Exit code of a child that stopped between two scripts because it has used up its budget of
+/// endpoint instances (every replaced `ControlServer` leaves a listener thread and its socket behind).
+const EXIT_RESTART: i32 = 75;
+const SERVER_BUDGET: usize = 400;
+
 pub fn run(args: &[String]) -> i32 {
-    install_panic_hook();
+    if args.iter().any(|a| a == "--child") {
+        return child(args);
+    }
     let scripts_path = arg(args, "--scripts").expect("--scripts");
     let out_path = arg(args, "--out").expect("--out");
     let work = arg(args, "--work").map(PathBuf::from).unwrap_or_else(|| PathBuf::from(format!("{out_path}.work")));
     std::fs::create_dir_all(&work).expect("work dir");
+    let n = read_ndjson(scripts_path).len();
+    let _ = std::fs::remove_file(out_path);
+    let progress = format!("{out_path}.progress");
+    let _ = std::fs::remove_file(&progress);
+    // spawned through /proc/self/exe: a concurrent rebuild of the harness cannot swap the binary under a run
+    let exe = if Path::new("/proc/self/exe").exists() { PathBuf::from("/proc/self/exe") } else { std::env::current_exe().expect("current exe") };
+    let mut spawns = 0usize;
+    loop {
+        spawns += 1;
+        let from: usize = std::fs::read_to_string(&progress).ok().and_then(|t| t.trim().parse().ok()).unwrap_or(0);
+        if from >= n {
+            break;
+        }
+        if spawns > n + 5 {
+            eprintln!("pairing-run: too many child restarts");
+            return 2;
+        }
+        let status = std::process::Command::new(&exe)
+            .args(["pairing-run", "--child", "--scripts", scripts_path, "--out", out_path, "--progress", &progress, "--from", &from.to_string(), "--work"])
+            .arg(&work)
+            .status()
+            .expect("spawn child");
+        match status.code() {
+            Some(0) => break,
+            Some(EXIT_RESTART) => continue,
+            _ => {
+                // a death of the process inside the code under test would be data, but the store has no
+                // path that can take a process down; anything else is a failure of the harness
+                eprintln!("pairing-run: child ended with {status}");
+                return 2;
+            }
+        }
+    }
+    let _ = std::fs::remove_file(&progress);
+    let _ = std::fs::remove_dir_all(&work);
+    eprintln!("pairing-run: {n} scripts in {spawns} process(es)");
+    0
+}
+
+fn child(args: &[String]) -> i32 {
+    install_panic_hook();
+    let scripts_path = arg(args, "--scripts").expect("--scripts");
+    let out_path = arg(args, "--out").expect("--out");
+    let progress = arg(args, "--progress").expect("--progress");
+    let from = arg_u64(args, "--from", 0) as usize;
+    let work = PathBuf::from(arg(args, "--work").expect("--work"));
     let scripts = read_ndjson(scripts_path);
-    let mut rn = Runner { work: work.clone(), fx: None, seq: 0 };
-    let mut o = Out::create(out_path);
-    let (mut nev, mut retries) = (0usize, 0usize);
-    for (si, sc) in scripts.iter().enumerate() {
+    let mut rn = Runner { work: work.clone(), fx: None, seq: 0, servers: 0 };
+    let file = std::fs::OpenOptions::new().create(true).append(true).open(out_path).expect("trace file");
+    let mut o = Out(std::io::BufWriter::new(file));
+    let mut retries = 0usize;
+    for (si, sc) in scripts.iter().enumerate().skip(from) {
+        if rn.servers >= SERVER_BUDGET {
+            return EXIT_RESTART;
+        }
         let mut attempt = 0u64;
         let evs = loop {
             match rn.run_script(si, sc, attempt) {
@@ -602,15 +663,15 @@ pub fn run(args: &[String]) -> i32 {
                 }
             }
         };
-        nev += evs.len() - 1;
         for e in &evs {
             o.line(e);
         }
+        o.flush();
+        std::fs::write(progress, format!("{}", si + 1)).expect("progress file");
     }
-    o.flush();
-    drop(rn);
-    let _ = std::fs::remove_dir_all(&work);
-    eprintln!("pairing-run: {} scripts, {} events, {} repeated for colliding secrets", scripts.len(), nev, retries);
+    if retries > 0 {
+        eprintln!("pairing-run: {retries} run(s) repeated for colliding secrets");
+    }
     0
 }
 
